@@ -36,8 +36,19 @@ Mode(ev) == IF ev.hasmask = 0 THEN "none" ELSE IF ev.ca = 1 THEN "ca" ELSE "unif
 NoMaskPx == [c \in Chan |-> CNone]
 Col16(buf) == <<buf[1] + 256 * buf[2], buf[3] + 256 * buf[4], buf[5] + 256 * buf[6], buf[7] + 256 * buf[8]>>
 
+(* A destination with ordered dithering enabled (dither # 0) may be written through the wide   *)
+(* pipeline with a position-dependent offset d in (0, 1) added before truncation: floor (v + d) *)
+(* for the real value v in destination steps, i.e. still within one step of v.  Specialised     *)
+(* routines ignore the dither setting.  So dithering adds the one-step band of the real-valued  *)
+(* result as an alternative to the judgement without dithering (premultiplied inputs).          *)
+PixelJudgedD(ev, fs, fm, fd, md, spx, mpx, dpx, rpx) ==
+    IF ev.dither = 0 THEN PixelOK(ev.op, md, fs, fm, fd, spx, mpx, dpx, rpx)
+    ELSE IF ~(Premult(spx) /\ Premult(dpx)) THEN TRUE
+    ELSE \/ PixelOK(ev.op, md, fs, fm, fd, spx, mpx, dpx, rpx)
+         \/ WideOK(ev.op, md, spx, mpx, dpx, fd, rpx)
+
 PixelJudged(ev, fs, fm, fd, md, i) ==
-    PixelOK(ev.op, md, fs, fm, fd,
+    PixelJudgedD(ev, fs, fm, fd, md,
             IF ev.pres = 7 THEN SolidPixel(Col16(ev.src)) ELSE PixelCV(fs, 0, ev.src, SrcPos(ev, i)),
             IF ev.hasmask = 0 THEN NoMaskPx
             ELSE IF ev.mpres = 2 THEN SolidPixel(Col16(ev.msk)) ELSE PixelCV(fm, 0, ev.msk, MskPos(ev, i)),
